@@ -21,6 +21,7 @@ type Node struct {
 	Height    uint64
 	Kinds     []string        // transaction kinds carried
 	Corrupt   string          // "" for an honestly mined block, else the corrupted field
+	TwinOf    *Node           // non-nil: a copy of that node with the same block id but an altered body (v2 ids cover only the header)
 	HdrOK     bool            // ValidateOrphan against the parent's header state, timestamp not in the future
 	Future    bool            // timestamp too far in the future (ErrFutureBlock)
 	BodyOK    bool            // accepted by a fresh linear node on top of its ancestry (implies all ancestors are)
@@ -89,8 +90,10 @@ type GenOpts struct {
 	Branchiness int      // 1 in Branchiness blocks starts a new branch off an older node
 	TxPerBlock  int      // attempted transactions per block (kinds picked at random)
 	Kinds       []string // allowed kinds (nil = all)
+	Twins       int      // same-id copies of v2 blocks with an altered body (miner address), see AddTwin
 	Corruptions int      // number of corrupted blocks to add
 	Jitter      int      // timestamp jitter in seconds (0 = every block one second after its parent)
+	Shape       []int    // if set: node i+1 is mined on node Shape[i] (a directed tree); Blocks/Branchiness are ignored
 	OnInvalid   int      // header-valid blocks mined on top of body-invalid blocks
 }
 
@@ -107,11 +110,16 @@ func Gen(r *rng.R, env *Env, o GenOpts) *Tree {
 	if kinds == nil {
 		kinds = TxKinds
 	}
-	for len(t.Nodes)-1 < o.Blocks {
+	for len(t.Nodes)-1 < o.Blocks || o.Shape != nil {
 		// choose the parent: usually a current branch tip, sometimes an older node
 		var parent *Node
 		tips := t.validTips()
-		if o.Branchiness > 0 && r.Chance(1, o.Branchiness) && len(t.Nodes) > 1 {
+		if o.Shape != nil {
+			if len(t.Nodes)-1 >= len(o.Shape) {
+				break
+			}
+			parent = t.Nodes[o.Shape[len(t.Nodes)-1]]
+		} else if o.Branchiness > 0 && r.Chance(1, o.Branchiness) && len(t.Nodes) > 1 {
 			parent = t.Nodes[r.Intn(len(t.Nodes))]
 		} else {
 			parent = tips[r.Intn(len(tips))]
@@ -141,6 +149,9 @@ func Gen(r *rng.R, env *Env, o GenOpts) *Tree {
 	}
 	for i := 0; i < o.OnInvalid; i++ {
 		t.AddOnInvalid(r)
+	}
+	for i := 0; i < o.Twins; i++ {
+		t.AddTwin(r)
 	}
 	return t
 }
@@ -381,4 +392,51 @@ func hdrChainOK(n *Node) bool {
 		}
 	}
 	return true
+}
+
+// AddTwin adds a copy of an honest v2 block whose miner address is altered while
+// the commitment (and therefore the block id) is kept: same id, header-valid,
+// body-invalid. The twin is not in ByID (the genuine node owns the id).
+func (t *Tree) AddTwin(r *rng.R) *Node {
+	var cands []*Node
+	for _, n := range t.Nodes {
+		if n.Parent != nil && n.Corrupt == "" && n.TwinOf == nil && n.Block.V2 != nil && n.ChainValid() {
+			cands = append(cands, n)
+		}
+	}
+	if len(cands) == 0 {
+		return nil
+	}
+	src := cands[r.Intn(len(cands))]
+	blk := deepCopyBlock(src.Block)
+	blk.MinerPayouts[0].Address[0] ^= 0x55
+	if blk.ID() != src.ID {
+		panic("chaingen: twin changed the block id")
+	}
+	n := &Node{Block: blk, ID: src.ID, Parent: src.Parent, Height: src.Height, Kinds: src.Kinds, Corrupt: "body-same-id", TwinOf: src, State: src.State}
+	pcs := src.Parent.State
+	n.HdrOK = consensus.ValidateOrphan(pcs, blk) == nil
+	// body validity by a fresh linear node
+	_, cm := t.Env.NewManager()
+	if path := Blocks(t.Path(src.Parent)); len(path) > 0 {
+		if err := cm.AddBlocks(path); err != nil {
+			panic(err)
+		}
+	}
+	n.BodyOK = cm.AddBlocks([]types.Block{blk}) == nil && cm.Tip().ID == n.ID
+	if n.BodyOK {
+		panic("chaingen: a same-id twin with an altered miner address validated")
+	}
+	n.Idx = len(t.Nodes)
+	t.Nodes = append(t.Nodes, n)
+	src.Parent.Children = append(src.Parent.Children, n)
+	return n
+}
+
+// Canon returns the node that owns n's block id (n itself unless n is a twin).
+func (n *Node) Canon() *Node {
+	if n.TwinOf != nil {
+		return n.TwinOf
+	}
+	return n
 }
